@@ -20,6 +20,7 @@ import AutomataVerif.Proofs.Rename
 import AutomataVerif.Proofs.Complete
 import AutomataVerif.Proofs.Partial
 import AutomataVerif.Proofs.MinCompose
+import AutomataVerif.Proofs.Expr
 
 namespace AV.Props.C04
 open AV AV.DFA
@@ -495,5 +496,132 @@ example : (match exA.complementMinFull 2 (fun _ => 0) with
            | .error _ => (false, false, false, 0)) = (false, true, false, 3) := by decide
 example : ((exC.toPartialMin).accepts [0, 0, 0], (exC.toPartialMin).accepts [0, 1],
     (exC.toPartialMin).states.length) = (true, false, 2) := by decide
+
+/-! ## 6. compositions: every operation preserves "valid DFA over Σ with language L"
+
+`Sem d Sg L` (Proofs/Expr.lean): `d.validate = ok`, `d.PyShape`, `d.syms = Sg` as sets, and
+`∀ w, d.accepts w = L w`.  The hypotheses of each theorem of sections 1–5 and 7 are exactly
+this invariant for the operands, and the conclusion is this invariant for the result, so
+every finite composition is covered — for `retain_names=True` by chaining the `C04_closed_*`
+theorems (the state type changes at every product), and for `retain_names=False` by the
+induction `C04_expr` over an explicit datatype of expression trees. -/
+
+/-- Closure: `A.op(B, retain_names=True, minify=False)`. -/
+theorem C04_closed_binop (op : BinOp) {A B : AV.DFA σ α} {Sg : List α} {LA LB : List α → Bool}
+    (hA : Sem A Sg LA) (hB : Sem B Sg LB) :
+    ∃ R, A.binopPlain op B = .ok R ∧ Sem R Sg (fun w => op.fin (LA w) (LB w)) := by
+  have hs := hA.symsEq hB
+  obtain ⟨R, hR, hv, hp, hsy, _⟩ := C04_binop_valid op A B hA.valid hB.valid hA.pyShape hs
+  obtain ⟨R', hR', hl⟩ := C04_binop_lang op A B hA.valid hB.valid hA.pyShape hs
+  have : R' = R := by rw [hR] at hR'; cases hR'; rfl
+  subst this
+  exact ⟨R', hR, hv, hp, fun a => by rw [hsy]; exact hA.syms a,
+    fun w => by rw [hl w, hA.lang w, hB.lang w]⟩
+
+/-- Closure: `A.op(B, retain_names=False, minify=False)`. -/
+theorem C04_closed_binop_renumbered (op : BinOp) {A B : AV.DFA σ α} {Sg : List α}
+    {LA LB : List α → Bool} (hA : Sem A Sg LA) (hB : Sem B Sg LB) :
+    ∃ R, A.binopPlain op B = .ok R ∧ Sem R.renumber Sg (fun w => op.fin (LA w) (LB w)) := by
+  have hs := hA.symsEq hB
+  obtain ⟨R, hR, hv, hp, hsy, hl⟩ := C04_binop_renumbered op A B hA.valid hB.valid hA.pyShape hs
+  exact ⟨R, hR, hv, hp, fun a => by rw [hsy]; exact hA.syms a,
+    fun w => by rw [hl w, hA.lang w, hB.lang w]⟩
+
+/-- Closure: `complement(minify=False)` (complement relative to `Sg*`). -/
+theorem C04_closed_complement {d : AV.DFA σ α} {Sg : List α} {L : List α → Bool} (h : Sem d Sg L)
+    (trap : σ) (ht : trap ∉ d.states) :
+    ∃ R, d.complementFull trap = .ok R ∧
+      Sem R Sg (fun w => (w.all fun a => decide (a ∈ Sg)) && !L w) := by
+  obtain ⟨R, hR, hv, hp, hsy, _, _, hl⟩ := C04_complement d h.valid h.pyShape trap ht
+  exact ⟨R, hR, hv, hp, fun a => by rw [hsy]; exact h.syms a,
+    fun w => by rw [hl w, h.lang w, all_mem_congr h.syms w]⟩
+
+/-- Closure: `to_complete` (language unchanged, result complete). -/
+theorem C04_closed_to_complete {d : AV.DFA σ α} {Sg : List α} {L : List α → Bool} (h : Sem d Sg L)
+    (trap : σ) (custom : Bool) (ht : trap ∉ d.states) :
+    ∃ C, d.toComplete trap custom = .ok C ∧ Sem C Sg L ∧ C.IsComplete := by
+  obtain ⟨C, hC, hv, hp, hsy, hc, _, _, hl⟩ := C04_to_complete d h.valid h.pyShape trap custom ht
+  exact ⟨C, hC, ⟨hv, hp, fun a => by rw [hsy]; exact h.syms a, fun w => by rw [hl w, h.lang w]⟩, hc⟩
+
+/-- Closure: `to_partial(minify=False)` (language unchanged). -/
+theorem C04_closed_to_partial {d : AV.DFA σ α} {Sg : List α} {L : List α → Bool} (h : Sem d Sg L) :
+    Sem d.toPartialPlain Sg L := by
+  obtain ⟨hv, hp, hsy, _, hl⟩ := C04_to_partial d h.valid h.pyShape
+  exact ⟨hv, hp, fun a => by rw [hsy]; exact h.syms a, fun w => by rw [hl w, h.lang w]⟩
+
+/-- Closure of the `minify=True` operations, given C05's guarantee for admissible calls of
+`_minify` (see section 7). -/
+theorem C04_closed_min_partial
+    (hC05 : ∀ (σ α : Type) [DecidableEq σ] [DecidableEq α] (kept : List σ) (syms : List α)
+      (trans : List (σ × List (α × σ))) (init : σ) (finals : List σ) (pick : List Nat → Nat),
+      MinifyCall kept syms trans init finals → MinifyCoreOk kept syms trans init finals pick)
+    {A B : AV.DFA σ α} {Sg : List α} {LA LB : List α → Bool} (hA : Sem A Sg LA) (hB : Sem B Sg LB)
+    (pick : List Nat → Nat) :
+    (∀ op, ∃ M, A.binopMin op B pick = .ok M ∧ Sem M Sg (fun w => op.fin (LA w) (LB w))) ∧
+    (∀ trap, trap ∉ A.states → ∃ M, A.complementMinFull trap pick = .ok M ∧
+      Sem M Sg (fun w => (w.all fun a => decide (a ∈ Sg)) && !LA w)) ∧
+    Sem (A.toPartialMin pick) Sg LA := by
+  obtain ⟨h1, h2, h3⟩ := C04_min_of_C05 hC05
+  refine ⟨fun op => ?_, fun trap ht => ?_, ?_⟩
+  · obtain ⟨M, hM, hv, hp, hsy, hl⟩ := h1 σ α op A B pick hA.valid hB.valid hA.pyShape (hA.symsEq hB)
+    exact ⟨M, hM, hv, hp, fun a => by rw [hsy]; exact hA.syms a,
+      fun w => by rw [hl w, hA.lang w, hB.lang w]⟩
+  · obtain ⟨M, hM, hv, hp, hsy, hl⟩ := h2 σ α A trap pick hA.valid hA.pyShape ht
+    exact ⟨M, hM, hv, hp, fun a => by rw [hsy]; exact hA.syms a,
+      fun w => by rw [hl w, hA.lang w, all_mem_congr hA.syms w]⟩
+  · obtain ⟨hv, hp, hsy, hl⟩ := h3 σ α A pick hA.valid hA.pyShape
+    exact ⟨hv, hp, fun a => by rw [hsy]; exact hA.syms a, fun w => by rw [hl w, hA.lang w]⟩
+
+/-- **Expression trees.**  For every finite tree over {leaf, ∪, ∩, −, △, complement,
+to_partial, to_complete} whose leaves are valid duplicate-free DFAs over one alphabet `Sg`,
+evaluation with the model of the code (`retain_names=False, minify=False`; `trapOf` returns
+a name outside the given states, as `_get_trap_state_id` does) succeeds, and the result is a
+valid DFA over `Sg` whose verdict on every word is the denoted set expression (complement
+relative to `Sg*`). -/
+theorem C04_expr (trapOf : List Nat → Nat) (hfresh : ∀ l, trapOf l ∉ l) (Sg : List α)
+    (e : DFAExpr α) (hl : e.LeavesOk Sg) :
+    ∃ R, e.eval trapOf = .ok R ∧ Sem R Sg (e.denote Sg) := by
+  induction e with
+  | leaf d => exact ⟨d, rfl, hl.1, hl.2.1, hl.2.2, fun _ => rfl⟩
+  | binop op l r ihl ihr =>
+    obtain ⟨A, hA, sA⟩ := ihl hl.1
+    obtain ⟨B, hB, sB⟩ := ihr hl.2
+    obtain ⟨R, hR, sR⟩ := C04_closed_binop_renumbered op sA sB
+    exact ⟨R.renumber, by simp only [DFAExpr.eval, hA, hB, hR], sR⟩
+  | compl e ih =>
+    obtain ⟨A, hA, sA⟩ := ih hl
+    obtain ⟨R, hR, sR⟩ := C04_closed_complement sA (trapOf A.states) (hfresh _)
+    exact ⟨R, by simp only [DFAExpr.eval, hA, hR], sR⟩
+  | toPartial e ih =>
+    obtain ⟨A, hA, sA⟩ := ih hl
+    exact ⟨A.toPartialPlain, by simp only [DFAExpr.eval, hA], C04_closed_to_partial sA⟩
+  | toComplete e ih =>
+    obtain ⟨A, hA, sA⟩ := ih hl
+    obtain ⟨C, hC, sC, _⟩ := C04_closed_to_complete sA (trapOf A.states) false (hfresh _)
+    exact ⟨C, by simp only [DFAExpr.eval, hA, hC], sC⟩
+
+/-- `freshNat` is an admissible trap-name oracle. -/
+theorem C04_expr_fresh (l : List Nat) : freshNat l ∉ l := freshNat_not_mem l
+
+/-- `(A − B) ∪ ~(to_partial(A) ∩ to_complete(B))`: five operation nodes. -/
+def exE : DFAExpr Nat :=
+  .union (.diff (.leaf exA) (.leaf exB))
+    (.compl (.inter (.toPartial (.leaf exA)) (.toComplete (.leaf exB))))
+
+theorem exA_leafOk : (DFAExpr.leaf exA).LeavesOk [0, 1] :=
+  ⟨by rfl, ⟨by decide, by decide, by decide, by decide, by decide⟩, fun _ => Iff.rfl⟩
+theorem exB_leafOk : (DFAExpr.leaf exB).LeavesOk [0, 1] :=
+  ⟨by rfl, ⟨by decide, by decide, by decide, by decide, by decide⟩, fun _ => Iff.rfl⟩
+
+example : exE.LeavesOk [0, 1] := ⟨⟨exA_leafOk, exB_leafOk⟩, ⟨exA_leafOk, exB_leafOk⟩⟩
+example : exE.size = 6 := by decide
+example : (match exE.eval freshNat with
+           | .ok R => (R.states.length, R.accepts [1], R.accepts [0, 0], R.accepts [1, 0, 1], R.accepts [1, 7])
+           | .error _ => (0, true, false, false, true)) = (5, false, true, true, false) := by decide
+example : (exE.denote [0, 1] [1], exE.denote [0, 1] [0, 0], exE.denote [0, 1] [1, 0, 1],
+    exE.denote [0, 1] [1, 7]) = (false, true, true, false) := by decide
+example : (match exE.eval freshNat with
+           | .ok R => R.validate
+           | .error e => .error e) = .ok () := by rfl
 
 end AV.Props.C04
